@@ -357,6 +357,38 @@ func (w *metaWorld) runOp(kind, mode string, a []string) (res []lua.LValue, ek s
 			usedMode = "lua"
 			lcall("function(a, k) return a[k] end", o, k)
 		}
+	case "self":
+		// method-call syntax obj:name(args) (OP_SELF + OP_CALL / OP_TAILCALL) and its definition
+		// obj.name(obj, args) (OP_GETTABLEKS / OP_GETTABLE + OP_CALL); the name is always an identifier
+		o, k, args := v[0], v[1], v[2:]
+		id, ok := c04IsIdent(a[1])
+		if !ok {
+			panic("self: method name is not an identifier: " + a[1])
+		}
+		n := len(args)
+		all := append([]lua.LValue{o}, args...)
+		switch mode {
+		case "tail":
+			lcall("function(a"+commaParams(n)+") return a:"+id+"("+params(n)+") end", all...)
+			if len(res) > 2 {
+				res = res[:2]
+			}
+		case "dot":
+			lcall("function(a"+commaParams(n)+") local p, q = a."+id+"(a"+commaParams(n)+") return p, q end", all...)
+		case "dotr":
+			lcall("function(a, k"+commaParams(n)+") local p, q = a[k](a"+commaParams(n)+") return p, q end", append([]lua.LValue{o, k}, args...)...)
+		case "lit":
+			// the receiver as a literal: (5):m(), ("abc"):m(), (nil):m()
+			if lit, ok := c04LuaLit(a[0]); ok {
+				lcall("function("+params(n)+") local p, q = ("+lit+"):"+id+"("+params(n)+") return p, q end", args...)
+			} else {
+				usedMode = "lua"
+				lcall("function(a"+commaParams(n)+") local p, q = a:"+id+"("+params(n)+") return p, q end", all...)
+			}
+		default:
+			usedMode = "lua"
+			lcall("function(a"+commaParams(n)+") local p, q = a:"+id+"("+params(n)+") return p, q end", all...)
+		}
 	case "newindex":
 		o, k, val := v[0], v[1], v[2]
 		switch mode {
@@ -816,7 +848,53 @@ func genMetaCase(r *Rng, nops int) []Op {
 			return "t" + strconv.Itoa(11+r.Intn(nmt))
 		}
 	}
+	// a few (metatable, event) slots that are rewritten again and again during the operations
+	type slot struct{ mt, ev string }
+	hot := make([]slot, 3)
+	for i := range hot {
+		hot[i] = slot{strconv.Itoa(11 + r.Intn(nmt)), Pick(r, metaEvents)}
+	}
 	for n := 0; n < nops; n++ {
+		if r.Chance(12) {
+			// the world changes between operations: a handler is installed / replaced / removed (through every
+			// write path), an object gets another metatable or none
+			if r.Chance(25) {
+				g.add("mt", obj(), Pick(r, []string{"nil", mt(), mt()}))
+				continue
+			}
+			sl := Pick(r, hot)
+			if r.Chance(30) {
+				sl = slot{strconv.Itoa(11 + r.Intn(nmt)), Pick(r, metaEvents)}
+			}
+			var val string
+			switch {
+			case r.Chance(40):
+				val = "nil"
+			case sl.ev == "__metatable":
+				val = Pick(r, []string{"F", c04sx("locked"), "i0"})
+			case (sl.ev == "__index" || sl.ev == "__newindex") && r.Chance(45):
+				val = obj()
+			default:
+				val = fn()
+			}
+			switch r.Intn(6) {
+			case 0:
+				g.add("rawset", "lua", "t"+sl.mt, c04sx(sl.ev), val)
+			case 1:
+				g.add("newindex", Pick(r, []string{"lua", "luak", "api", "apif"}), "t"+sl.mt, c04sx(sl.ev), val)
+			default:
+				g.add("set", sl.mt, c04sx(sl.ev), val)
+			}
+			continue
+		}
+		if r.Chance(5) {
+			a := []string{"self", Pick(r, []string{"lua", "tail", "lit", "dot", "dotr"}), operand(), Pick(r, []string{c04sx("k"), c04sx("x")})}
+			for i, na := 0, r.Range(0, 2); i < na; i++ {
+				a = append(a, Pick(r, []string{"i1", c04sx("arg"), "nil", "t1", "F"}))
+			}
+			g.add(a...)
+			continue
+		}
 		switch c := r.Intn(100); {
 		case c < 14:
 			g.add("index", Pick(r, []string{"lua", "luak", "global", "api", "apif"}), operand(), Pick(r, keys))
@@ -1045,6 +1123,9 @@ func genChainCase(d int, ending int, ud bool) []Op {
 		g.add("index", m, "t1", c04sx("k"))
 	}
 	g.add("index", "lua", "t1", "i1")
+	for _, m := range []string{"lua", "tail", "dot", "dotr"} {
+		g.add("self", m, "t1", c04sx("k"), "i1")
+	}
 	for _, m := range []string{"lua", "luak", "api", "apif", "global"} {
 		g.add("newindex", m, "t1", c04sx("k"), "i5")
 		g.add("index", "lua", "t1", c04sx("k"))
@@ -1060,7 +1141,7 @@ func runC04M(run *Run) {
 	if run.Tier == "thorough" {
 		nRandom, nOps = 40000, 60
 	}
-	run.Rule = "mechanism tie for metamethod dispatch: (1) bounded-exhaustive operator × type² matrix [a TEST: 13 operand representatives² × 6 handler placements × every operator × every execution mode (Lua register / constant forms, Go API, verif hooks)], (2) __index/__newindex chains of depth 1..6, 99, 100, 101 and cycles, (3) random worlds (metatables with random event subsets incl. non-function slots, __metatable, per-type metatables, raw contents) × random operations; every request executed on the real interpreter, handler log + result compared with the Lean Model action (exact) and Spec action; distinct = distinct (kind, first-operand class) skeletons"
+	run.Rule = "mechanism tie for metamethod dispatch: (1) bounded-exhaustive operator × type² matrix [a TEST: 13 operand representatives² × 6 handler placements × every operator × every execution mode (Lua register / constant forms, Go API, verif hooks)], (2) __index/__newindex chains of depth 1..6, 99, 100, 101 and cycles, (3) random worlds (metatables with random event subsets incl. non-function slots, __metatable, per-type metatables, raw contents) × random operations incl. method calls, interleaved with handler installs / replacements / removals through every write path and metatable exchanges, (4) handler life cycles [a TEST: every history of 4 (thorough: 5) steps over install-next / remove / other-metatable-and-back / no-metatable-and-back / unrelated-new-key on one metatable shared by two tables, two userdata and all strings, every event triggered after every step], (5) method-call syntax [a TEST: obj:name(…) = obj.name(obj, …) for 10 receiver kinds × __index chains of length 0..4 × 3 endings × every position and kind of the stored method × call/tail/literal-receiver forms]; every request executed on the real interpreter, handler log + result compared with the Lean Model action (exact) and Spec action; distinct = distinct (kind, first-operand class) skeletons"
 	run.Assume = []string{
 		"numeric primitives (float arithmetic, string→number, number→string, string order) are parameters of Model and Spec; the driver instantiates them with IEEE doubles and the tie only uses operands on which Go and the driver agree exactly (small integers, halves, plain decimal / 0x numerals)",
 		"LTable.Metatable / LUserData.Metatable only hold nil or a table (LState.SetMetatable is the only writer used)",
@@ -1091,6 +1172,22 @@ func runC04M(run *Run) {
 		}
 	}
 	run.Extra["chain_cases"] = idx
+	// (4) handler life cycles: every history of histLen steps
+	histLen := 4
+	if run.Tier == "thorough" {
+		histLen = 5
+	}
+	for i, h := range enumHistories(histLen) {
+		cases = append(cases, Case{Idx: 3000000 + i, Ops: genHistoryCase(i, h), Note: "history:" + histName(h)})
+		run.Hist["history"]++
+	}
+	run.Extra["history_cases"] = run.Hist["history"]
+	// (5) method-call syntax = index + call, every receiver kind × every __index shape
+	for i, ops := range enumSelfCases() {
+		cases = append(cases, Case{Idx: 4000000 + i, Ops: ops, Note: "self"})
+		run.Hist["selfcase"]++
+	}
+	run.Extra["self_cases"] = run.Hist["selfcase"]
 	for i := 0; i < nRandom; i++ {
 		r := root.Fork(uint64(i))
 		cases = append(cases, Case{Idx: i, Ops: genMetaCase(r, r.Range(8, nOps))})
